@@ -28,6 +28,10 @@ const POWERED: [&str; 40] = [
 /// contributed, cancelled and contributed again while the units are expanded.
 const CANCEL2: [&str; 16] = ["m/ft", "km/mi", "in/yd", "N*m/J", "Pa*m^2/N", "J/N/m", "V*A*s/J", "C*V/J", "Wb*A/J", "N*kg/J", "J*kg/N", "W*s/N", "N*s/kg", "kg*m/N", "N*s^2/m", "J*s/W/h"];
 
+/// One unit name on both sides of the `/` under different powers: what is left is a power of
+/// that unit, not nothing (`m/m^2` is m^-1).
+const SELF_PARTLY: [&str; 12] = ["m/m^2", "s/s^2", "kg*m/m^2", "m^2/m^3", "s^2/s^3", "m/m^3", "s*m/s^2", "A*s/s^2", "m^2/m", "kg/kg^2", "ft/ft^2", "N*m/m^2"];
+
 /// The spelling set S.
 pub fn spellings(tier: Tier) -> Vec<String> {
     let mut s: Vec<String> = Vec::new();
@@ -63,6 +67,9 @@ pub fn spellings(tier: Tier) -> Vec<String> {
         s.push(c.to_string());
     }
     for c in CANCEL2 {
+        s.push(c.to_string());
+    }
+    for c in SELF_PARTLY {
         s.push(c.to_string());
     }
     if tier == Tier::Thorough {
@@ -104,7 +111,7 @@ impl Prop for C02 {
         "C02"
     }
     fn rule(&self) -> String {
-        "spelling set S = one typeable name of each of the 84 proportional units, their k-/m- prefixed forms where the word has a single reading, all u*v and u/v over a 14-unit (thorough 26-unit) core, 24 hand-listed cancelling spellings, 16 spellings over different unit names that cancel completely or contribute/cancel/re-contribute a base dimension (m/ft, N*m/J, N*kg/J), 40 powered / prefixed-and-powered / three-factor / partly cancelling spellings (m^2 vs ha, cm^3 vs l, s^-1 vs Bq, kg*m^2/s^2 vs J, m^3/m, km*m) (thorough: plus every alias); all ordered pairs (a,b) of S x {`1 a + 1 b`, `3 a - 1 b`, `1 a to b`, `5 a + 0 b`, `0 a - 5 b`} and, over a 48-spelling core, computed zeros `5 a + (3 b - 3 b)`, `(2 a - 2 a) - 4 b`; plus `2 + 1 q`, `1 q + 2`, `5 - 1 q`, `1 q - 5` for every q in S. Oracle: Ok iff the independent table gives both sides the same base dimensions; on Ok the SI value is the exact sum/difference/rescaling and a cast result is expressed in the target's unit; a plain number adopts the quantity's unit in both orders. Non-trivial = both sides have non-empty units; distinct = distinct query strings".into()
+        "spelling set S = one typeable name of each of the 84 proportional units, their k-/m- prefixed forms where the word has a single reading, all u*v and u/v over a 14-unit (thorough 26-unit) core, 24 hand-listed cancelling spellings, 16 spellings over different unit names that cancel completely or contribute/cancel/re-contribute a base dimension (m/ft, N*m/J, N*kg/J), 40 powered / prefixed-and-powered / three-factor / partly cancelling spellings (m^2 vs ha, cm^3 vs l, s^-1 vs Bq, kg*m^2/s^2 vs J, m^3/m, km*m) (thorough: plus every alias); all ordered pairs (a,b) of S x {`1 a + 1 b`, `3 a - 1 b`, `1 a to b`, `5 a + 0 b`, `0 a - 5 b`} and, over a 48-spelling core, computed zeros `5 a + (3 b - 3 b)`, `(2 a - 2 a) - 4 b`; 12 spellings with one unit on both sides of the `/` under different powers (m/m^2 is m^-1); computed operands: every a*b/c and a/b*c over 10 quantities (ft, in, yd, kWh, h, N, m, J, s, kg) cast to each of 12 targets and added to / subtracted from targets, judged against the reference evaluation of the tree; plus `2 + 1 q`, `1 q + 2`, `5 - 1 q`, `1 q - 5` for every q in S. Oracle: Ok iff the independent table gives both sides the same base dimensions; on Ok the SI value is the exact sum/difference/rescaling and a cast result is expressed in the target's unit; a plain number adopts the quantity's unit in both orders. Non-trivial = both sides have non-empty units; distinct = distinct query strings".into()
     }
     fn assumptions(&self) -> Vec<String> {
         vec![
@@ -132,6 +139,35 @@ impl Prop for C02 {
                 sink(Case::with("sub", format!("(2 {a} - 2 {a}) - 4 {b}"), serde_json::json!({"a": a, "b": b, "ca": 0, "cb": 4})));
             }
         }
+        // operands that are computed: a product / quotient of three quantities (whose unit the tool
+        // has to reconstruct) cast to, added to or subtracted from a target of the same or of
+        // another dimension; judged against the reference evaluation of the tree
+        {
+            use crate::refcalc::{bin, paren, qty, to, to_json, Op};
+            let ops = [("1", "ft"), ("1", "in"), ("1", "yd"), ("2", "kWh"), ("1", "h"), ("3", "N"), ("2", "m"), ("6", "J"), ("0.5", "s"), ("4", "kg")];
+            let targets = ["m", "m^2", "s", "J", "W", "N", "kg", "ft", "in^2", "m/s", "kg*m", "ft*in"];
+            for (al, au) in ops {
+                for (bl, bu) in ops {
+                    for (cl, cu) in ops {
+                        for (o1, o2) in [(Op::Mul, Op::Div), (Op::Div, Op::Mul)] {
+                            let prod = bin(bin(qty(al, au), o1, qty(bl, bu)), o2, qty(cl, cu));
+                            for t in targets {
+                                let e = to(prod.clone(), t);
+                                sink(Case::with("computed", e.render(), to_json(&e)));
+                            }
+                            // + and - with the first two targets of matching dimension are covered by
+                            // running every target through both
+                            for t in targets.iter().take(tier.pick(4, 12)) {
+                                let e = bin(paren(prod.clone()), Op::Add, qty("1", t));
+                                sink(Case::with("computed", e.render(), to_json(&e)));
+                                let e = bin(qty("1", t), Op::Sub, paren(prod.clone()));
+                                sink(Case::with("computed", e.render(), to_json(&e)));
+                            }
+                        }
+                    }
+                }
+            }
+        }
         for q in &s {
             sink(Case::with("plain-left", format!("2 + 1 {q}"), serde_json::json!({"q": q})));
             sink(Case::with("plain-right", format!("1 {q} + 2"), serde_json::json!({"q": q})));
@@ -141,6 +177,9 @@ impl Prop for C02 {
     }
     fn check(&self, env: &mut Env, case: &Case) -> Verdict {
         let q = &case.key;
+        if case.fam == "computed" {
+            return crate::exprcheck::verdict(env.db(), &crate::refcalc::from_json(&case.data), true);
+        }
         let got = match obs::eval_one(env.db(), q) {
             Ok(r) => r,
             Err(why) => return fw::fail(format!("results:{}", case.fam), format!("{q}: {why}")),
